@@ -18,6 +18,7 @@ import (
 	"os"
 	"path/filepath"
 	"strings"
+	"sync"
 	"time"
 
 	"go.etcd.io/bbolt"
@@ -43,6 +44,11 @@ type Case struct {
 	// per block step after opening ('1' = fires)
 	Sched string `json:"sched"`
 	Bolt  bool   `json:"bolt,omitempty"` // run the node on a BoltChainDB
+	// Directed: a hand-built tree instead of a generated one
+	Directed string `json:"directed,omitempty"`
+	// CrashAt > 0: the live variant — the node stops after block step CrashAt, the database
+	// discards its uncommitted window and is itself reopened
+	CrashAt int `json:"crash_at,omitempty"`
 	// NaturalAt > 0: before the store performs block step NaturalAt the harness waits until
 	// the 5 s threshold of shouldFlush has passed, so that the store's own flush test fires
 	// at its real position inside ApplyBlock / RevertBlock
@@ -53,6 +59,28 @@ type Case struct {
 func (c Case) Tree() *chaingen.Tree {
 	r := rng.New(c.Seed)
 	env := chaingen.NewEnv(r, c.Regime)
+	if c.Directed == "shared-expiration-list" {
+		s := chaingen.NewScript(r, env)
+		b1 := s.Extend(s.T.Nodes[0], func(b *chaingen.Builder) {
+			for i := 0; i < 3; i++ {
+				b.AddV1Form(r, 3, 6)
+			}
+		})
+		ids := chaingen.ContractsOf(b1.Block)
+		b2 := s.Extend(b1, nil)
+		b3 := s.Extend(b2, func(b *chaingen.Builder) {
+			if len(ids) > 0 {
+				b.AddV1ProofOf(ids[0])
+			}
+		})
+		b4 := s.Extend(b3, func(b *chaingen.Builder) {
+			if len(ids) > 1 {
+				b.AddV1ReviseOf(ids[1], 7)
+			}
+		})
+		s.Extend(s.Extend(b4, nil), nil)
+		return s.T
+	}
 	return chaingen.Gen(r, env, c.Opts)
 }
 
@@ -66,6 +94,10 @@ func (c Case) fires(step int) bool {
 	i := step - 1 // step 0 is the opening
 	return i >= 0 && i < len(c.Sched) && c.Sched[i] == '1'
 }
+
+// kindAlias: data of the database changed although nothing was committed (a store step may
+// only write through Put/Delete of the open batch).
+const kindAlias = "c03-committed-data-modified-outside-a-commit"
 
 type failure struct {
 	kind, detail string
@@ -123,6 +155,24 @@ func newBackend(cs Case) (chain.DB, func()) {
 	return db, func() { db.Close(); os.Remove(path) }
 }
 
+// twinsOf caches the linear twins per tree (they are expensive and shared by all runs over a tree).
+var twinCache = map[*chaingen.Tree]*storeobs.Twins{}
+var twinMu sync.Mutex
+
+func twinsOf(t *chaingen.Tree) *storeobs.Twins {
+	twinMu.Lock()
+	defer twinMu.Unlock()
+	if tw, ok := twinCache[t]; ok {
+		return tw
+	}
+	if len(twinCache) > 4 {
+		twinCache = map[*chaingen.Tree]*storeobs.Twins{}
+	}
+	tw := storeobs.NewTwins(t)
+	twinCache[t] = tw
+	return tw
+}
+
 func runCase(t *chaingen.Tree, cs Case, wantCoq bool) (o outcome) {
 	backend, closeDB := newBackend(cs)
 	defer closeDB()
@@ -171,6 +221,7 @@ func runCase(t *chaingen.Tree, cs Case, wantCoq bool) (o outcome) {
 		}
 	}()
 	nd.OnStep = func(st *storeobs.StepRec) {
+		rec.CheckHandedOut()
 		if cs.fires(len(nd.Steps) - 1) {
 			if err := nd.Inner.Flush(); err != nil {
 				panic(err)
@@ -179,6 +230,11 @@ func runCase(t *chaingen.Tree, cs Case, wantCoq bool) (o outcome) {
 	}
 	for _, op := range cs.Plan {
 		obs := nd.Do(op)
+		rec.CheckHandedOut()
+		if rec.AliasErr != "" {
+			o.fail = &failure{kindAlias, fmt.Sprintf("during %v (block step %d): %s", op, len(nd.Steps)-1, rec.AliasErr), -1}
+			return
+		}
 		if obs.Panic {
 			o.fail = &failure{"c03-manager-call-panics", fmt.Sprintf("%v panicked: %s", op, obs.ErrText), -1}
 			return
@@ -191,7 +247,7 @@ func runCase(t *chaingen.Tree, cs Case, wantCoq bool) (o outcome) {
 		return
 	}
 	o.finalTip = final.Idx
-	tw := storeobs.NewTwins(t)
+	tw := twinsOf(t)
 	_, stats := storeobs.Judge(nd, tw)
 	o.reverts = stats.Reverts
 	R := t.Env.Net.HardforkV2.RequireHeight
@@ -267,7 +323,7 @@ func runCase(t *chaingen.Tree, cs Case, wantCoq bool) (o outcome) {
 			if tipIdx >= 0 {
 				tipS = fmt.Sprintf("(Some %d)", tipIdx)
 			}
-			dumps = append(dumps, "("+nd.Names.CoqDump(pst, blockName, true)+", "+tipS+")")
+			dumps = append(dumps, "("+nd.Names.CoqDump(pst, blockName, k%3 == 0 || k+1 == len(rec.Images))+", "+tipS+")")
 		}
 		if o.fail != nil {
 			break
@@ -384,7 +440,7 @@ func runCase(t *chaingen.Tree, cs Case, wantCoq bool) (o outcome) {
 		case !bytes.Equal(mgrsim.EncState(sim.CM.TipState()), encState(final)):
 			fail(k, "c03-catch-up-state-differs", "the node reopened from the image after step %d reaches the final tip %d with a different state", im.Step, final.Idx)
 		}
-		if wantCoq && !stats.Trigger && len(ro.hist) == len(cs.Plan) && (k < 2 || k+1 == len(rec.Images) || inside(im.Step) && len(mcases) < 4) {
+		if wantCoq && !stats.Trigger && len(ro.hist) == len(cs.Plan) && (k < 1 || k+1 == len(rec.Images) || inside(im.Step) && len(mcases) < 2) {
 			var hs []string
 			for i := range cs.Plan {
 				hs = append(hs, "("+qualify(mgrsim.CoqOp(t, cs.Plan[i]))+", "+qualify(mgrsim.CoqObs(ro.hist[i]))+")")
@@ -586,6 +642,43 @@ func run(c *hx.Ctx) {
 		if o.coq != "" {
 			cases = append(cases, o.coq)
 		}
+		// live crash points: stop after a block step, let the database discard its window, reopen it
+		if o.fail == nil && o.nd != nil && o.steps > 1 {
+			var points []int
+			if cs.Directed != "" {
+				for k := 1; k < o.steps; k++ {
+					points = append(points, k)
+				}
+			} else if cs.Sched != "all" {
+				pr := rng.New(cs.Seed ^ 0x11fe)
+				points = []int{1 + pr.Intn(o.steps-1)}
+				if c.Thorough {
+					points = append(points, 1+pr.Intn(o.steps-1), 1+pr.Intn(o.steps-1))
+				}
+			}
+			for _, k := range points {
+				lo := runLive(t, cs, k, o.finalTip)
+				if !lo.crashed && lo.fail == nil {
+					continue
+				}
+				res.Count("live-crash-points (database reopened after Cancel)")
+				if lo.pending > 0 {
+					res.Count("live-crash-points-with-an-uncommitted-window")
+				}
+				if lo.unsep {
+					res.Count("catch-ups-ending-elsewhere-without-separation")
+				}
+				lcs := cs
+				lcs.CrashAt = k
+				if lo.known != nil {
+					res.Fail(lo.known.kind, lo.known.detail, map[string]any{"case": lcs, "tree": describe(t)})
+				}
+				if lo.fail != nil {
+					res.Fail(lo.fail.kind, lo.fail.detail, map[string]any{"case": lcs, "tree": describe(t), "steps": describeSteps(o.nd, o.rec)})
+					break
+				}
+			}
+		}
 		if len(res.Samples) < 2 && o.nd != nil {
 			var ops []string
 			for _, op := range cs.Plan {
@@ -620,6 +713,13 @@ func run(c *hx.Ctx) {
 			}
 		}
 	}
+	// hand-built histories around a shared expiration list (every live crash point)
+	for _, regime := range []int{0, 1, 3} {
+		for _, sched := range []string{"none", "all", "0101010101"} {
+			cs, _ := contractCase(regime, sched)
+			doCase(cs, true)
+		}
+	}
 	// the store's own threshold: a few histories in which the harness waits 5 s before one block
 	// step (they sleep concurrently)
 	type natRes struct {
@@ -652,7 +752,7 @@ func run(c *hx.Ctx) {
 		}
 		go func() { natCh <- natRes{cs: cs, t: t, o: runCase(t, cs, true)} }()
 	}
-	n := c.Scale(90, 800)
+	n := c.Scale(64, 800)
 	enumerated := 0
 	for i := 0; i < n; i++ {
 		r := c.R.Fork()
